@@ -100,11 +100,35 @@ def classify(trace, tree, faults):
     return sig
 
 
+SKEL_WS = ["", " ", "\n", "\t", "\x0c", "\r", "&nbsp;", "\u00a0", "\u2003", "\u3000", "\u0085", "\x0b", "\u2028", "\ufeff", "x",
+           "&#32;", "&#x3000;", "\0", "<!--c-->"]
+SKEL_PARTS = ["<!DOCTYPE html>", "<html>", "<head>", "</head>", "<body>", "</body>", "</html>", "<frameset>", "<frame>",
+              "</frameset>", "<noframes>", "</noframes>", "<title>t</title>", "<p>", "x", "<template>", "</template>"]
+
+
+def gen_skeleton_input(rng):
+    """directed at the skeleton itself: every kind of (non-)whitespace character between the structural tags"""
+    k = rng.random()
+    if k < 0.5:
+        seq = ["<!DOCTYPE html>", "<html>", "<head>", "</head>", "<body>", "x", "</body>", "</html>"]
+    elif k < 0.8:
+        seq = ["<!DOCTYPE html>", "<html>", "<head>", "</head>", "<frameset>", "<frame>", "</frameset>", "</html>"]
+    else:
+        seq = [rng.choice(SKEL_PARTS) for _ in range(rng.randint(2, 9))]
+    seq = [t for t in seq if rng.random() < 0.85]
+    out = []
+    for t in seq:
+        out.append(t)
+        if rng.random() < 0.5:
+            out.append("".join(rng.choice(SKEL_WS) for _ in range(rng.randint(1, 3))))
+    return "".join(out)
+
+
 def gen_doc_cases(rng, n):
     """documents only; every input under the whole / one-character / a random chunking and a scripting setting"""
     cases = []
     while len(cases) < n:
-        s = L.gen_html_input(rng)
+        s = gen_skeleton_input(rng) if rng.random() < 0.2 else L.gen_html_input(rng)
         fl = L.rand_flags(rng)
         chs = [[s]]
         if 1 < len(s) <= 160:
